@@ -65,6 +65,9 @@ POOL = [
     # limits of the RFC ranges: BYSECOND 0..60, BYMINUTE 0..59, BYHOUR 0..23, BYMONTHDAY +-31, BYYEARDAY +-366, BYWEEKNO +-53
     part("BYSECOND", I(60)), part("BYSECOND", I(59), I(60)), part("BYMINUTE", I(59)), part("BYHOUR", I(23), I(0)), part("BYMONTHDAY", I(31), I(-31)),
     part("BYYEARDAY", I(366), I(-366)), part("BYWEEKNO", I(53), I(-53)), part("BYSETPOS", I(366), I(-366)),
+    # two-digit months, plain and leap (RFC 7529: 1..13 with an optional L), next to their one-digit prefixes
+    part("BYMONTH", ("m", 10, 1)), part("BYMONTH", ("m", 12, 1), ("m", 1, 1)), part("BYMONTH", ("m", 13, 0)), part("BYMONTH", ("m", 11, 1), ("m", 11, 0), ("m", 1, 0)),
+    part("BYMONTH", ("m", 10, 0), ("m", 1, 0)),
 ]
 
 
